@@ -67,6 +67,13 @@ def faults(d, rng):
         for pos in sorted({0, len(U) - 1}):
             yield f"process noise for control {U[pos].name} missing", ekf_ep, lambda dd, pos=pos: dd.process_noise.pop(U[pos])
             yield f"negative process noise for {U[pos].name}", ekf_ep, lambda dd, pos=pos: dd.process_noise.__setitem__(U[pos], -0.5)
+            if pos == 0:
+                # the same fault with the number given as a numpy scalar or a sympy number (a negative variance whatever its class)
+                import numpy as _np
+
+                yield f"negative process noise for {U[pos].name} given as numpy.float32", ekf_ep, lambda dd, pos=pos: dd.process_noise.__setitem__(U[pos], _np.float32(-0.5))
+                yield f"negative process noise for {U[pos].name} given as numpy.int64", ekf_ep, lambda dd, pos=pos: dd.process_noise.__setitem__(U[pos], _np.int64(-2))
+                yield f"negative process noise for {U[pos].name} given as a sympy Rational", ekf_ep, lambda dd, pos=pos: dd.process_noise.__setitem__(U[pos], sympy.Rational(-1, 2))
     yield "process noise for a state symbol", ekf_ep, lambda dd: dd.process_noise.__setitem__(S[0], 1.0)
     if U:
         yield f"process noise for a state symbol instead of control {U[-1].name} (same size)", ekf_ep, lambda dd: (dd.process_noise.pop(U[-1]), dd.process_noise.__setitem__(S[0], 1.0))
